@@ -63,7 +63,27 @@ def opEvents (args : List String) : String :=
     | none => "OUTOFFUEL"
     | some evs => ",".intercalate (evs.map fun e => e.p.kindName)
 
+/-- `validatelinks <rules> <sexp>` → `<validate reply> # <links reply>` (one decode for both) -/
+def opValidateLinks (args : List String) : String :=
+  match args with
+  | [] => "bad-args"
+  | spec :: rest =>
+    match resolveRules spec with
+    | .error m => m
+    | .ok rules =>
+      match decodePair rest with
+      | .error m => m
+      | .ok (s, d) =>
+        match walkDoc s d with
+        | none => "OUTOFFUEL"
+        | some evs =>
+          let v := match runAll s d (rules.map Rule.start) evs with
+            | .ok [] => "OK"
+            | .ok errs => ";".intercalate (errs.map renderErr)
+            | .error m => "PANIC," ++ toHexW m
+          v ++ " # " ++ linkDump evs
+
 def validateOps : List (String × (List String → String)) :=
-  [("validate", opValidate), ("links", opLinks), ("events", opEvents)]
+  [("validate", opValidate), ("links", opLinks), ("events", opEvents), ("validatelinks", opValidateLinks)]
 
 end Gql.Ops
